@@ -46,7 +46,7 @@ ASSUMPTIONS = [
     "CPython 3.12 asyncio FIFO ready queue; one step = one `await asyncio.sleep(0)` of the driver",
     "the 20-line sequential model in this file and the history invariants are the specification",
 ]
-MINIMUMS = {"handoff_while_pending": 100, "cancel_after_handoff": 10, "monitor:model": 1000, "monitor:drain": 1000, "long_backlog_drains": 60}
+MINIMUMS = {"handoff_while_pending": 100, "cancel_after_handoff": 10, "monitor:model": 1000, "monitor:drain": 1000, "long_backlog_drains": 60, "finished_with_falsy_exception": 200}
 JOBS = {"quick": 4, "thorough": 16}
 
 OPS = ("E1", "E3", "F", "FX", "C", "R", "X", "S")
@@ -57,6 +57,13 @@ RANDOM_CASES = {"quick": 6000, "thorough": 400_000}
 
 class Boom(Exception):
     pass
+
+
+class EmptyBoom(Exception):
+    """an exception whose truth value is False"""
+
+    def __len__(self) -> int:
+        return 0
 
 
 class ElemErr(Exception):
@@ -89,6 +96,7 @@ class _Run:
         self.problems: list[tuple[str, str, str]] = []  # (monitor, kind, detail)
         self.handoff_while_pending = False
         self.cancel_after_handoff = False
+        self.falsy_reason = False
         self.events: list[str] = []
         self.steps_since_recv = 0  # loop steps since the current receive was started
         self.handed_at: int | None = None  # steps_since_recv when an element/reason was handed to it
@@ -188,7 +196,10 @@ class _Run:
                 self.q.finish()
                 r, kind = None, "end"
             elif op == "FX":
-                r = Boom(len(self.events))
+                # every other time the given exception is a falsy one (an aggregate error that collected nothing)
+                r = Boom(len(self.events)) if len(self.events) % 2 else EmptyBoom(len(self.events))
+                if not r:
+                    self.falsy_reason = True
                 kind = "exc"
                 self.q.finish(r)
             else:
@@ -327,6 +338,8 @@ def judge(R: Recorder, run: _Run, mode: str, initial: int, seq: tuple[str, ...],
         R.count("handoff_while_pending")
     if run.cancel_after_handoff:
         R.count("cancel_after_handoff")
+    if run.falsy_reason and run.reason_kind == "exc" and not run.reason:
+        R.count("finished_with_falsy_exception")
     if initial >= 17:
         R.count("long_backlog_drains")
     R.count("receives_completed", len(run.recv_log))
@@ -339,7 +352,7 @@ def judge(R: Recorder, run: _Run, mode: str, initial: int, seq: tuple[str, ...],
         probs = byname.get(mon)
         if probs:
             kind, detail = probs[0]
-            R.monitor(mon, False, where={"mode": mode, "kind": kind, "cancel_after_handoff": run.cancel_after_handoff}, detail=detail, case=case)
+            R.monitor(mon, False, where={"mode": mode, "kind": kind, "cancel_after_handoff": run.cancel_after_handoff, "falsy_reason": run.reason_kind == "exc" and not run.reason}, detail=detail, case=case)
         else:
             R.monitor(mon, True)
     if mode == "settled":
